@@ -470,21 +470,30 @@ pub fn end_of_text<'text, Sc>(
 {
     let error_span = lexer.parse_span();
 
-    if lexer.is_empty() {
+    if lexer.is_empty() || only_filtered_tokens_remain(&lexer) {
         event!(Level::TRACE, "end_of_text: Success");
-        Ok(Success {
+        return Ok(Success {
             lexer,
             value: (),
-        })
-    } else {
-        let lex = lexer.peek().unwrap();
+        });
+    }
 
-        event!(Level::ERROR, "end_of_text: UnexpectedTokenError {}", lexer);
-        Err(Box::new(UnexpectedTokenError {
-            error_span,
-            token_span: lexer.token_span(),
-            expected: Expected::EndOfText,
-            found: Found::Token(lex),
-        }))
+    match lexer.peek() {
+        Some(lex) => {
+            event!(Level::ERROR, "end_of_text: UnexpectedTokenError {}", lexer);
+            Err(Box::new(UnexpectedTokenError {
+                error_span,
+                token_span: lexer.token_span(),
+                expected: Expected::EndOfText,
+                found: Found::Token(lex),
+            }))
+        },
+        // Text remains that the scanner does not recognize.
+        None => {
+            event!(Level::ERROR, "end_of_text: UnrecognizedTokenError {}", lexer);
+            Err(Box::new(UnrecognizedTokenError {
+                error_span,
+            }))
+        },
     }
 }
